@@ -74,7 +74,10 @@ pub fn render(g: &Gen, dyn_keys: &[String]) -> Value {
         p2v(&mut ann, "STARK/Out Of Domain Sampling/OODS values", "", "Field Elements", vals.join(", "), g.oods as usize);
     }
     v2p(&mut ann, "STARK/Out Of Domain Sampling", "Constraint polynomial random element", "Field Element", hx(nf()));
-    let steps: Vec<u64> = std::iter::once(0u64).chain(g.steps.iter().map(|x| 1 + (*x as u64 % 4))).collect();
+    // long step lists (two-digit layer numbers) use steps of 1 so that the trace length stays below the
+    // parser's documented capacity (u32)
+    let smod = if g.steps.len() > 4 { 1 } else { 4 };
+    let steps: Vec<u64> = std::iter::once(0u64).chain(g.steps.iter().map(|x| 1 + (*x as u64 % smod))).collect();
     for k in 1..steps.len() {
         p2v(&mut ann, &format!("STARK/FRI/Commitment/Layer {}", k), "Commitment", "Hash", hx(nf()), 1);
         v2p(&mut ann, &format!("STARK/FRI/Commitment/Layer {}", k + 1), "Evaluation point", "Field Element", hx(nf()));
@@ -508,7 +511,7 @@ pub fn write_corpus(ctx: &Ctx, dir: &str, n: u64) -> std::io::Result<()> {
 
 pub fn strategy() -> impl Strategy<Value = Case> {
     let gen = (
-        (0u8..7, any::<u64>(), proptest::collection::vec(any::<u8>(), 1..5), any::<u8>(), any::<u8>()),
+        (0u8..7, any::<u64>(), prop_oneof![5 => proptest::collection::vec(any::<u8>(), 1..5), 1 => proptest::collection::vec(any::<u8>(), 5..21)], any::<u8>(), any::<u8>()),
         (any::<u8>(), any::<u8>(), 0u8..9, any::<u8>(), any::<u8>(), any::<u8>()),
     )
         .prop_map(|((layout, seed, steps, log_last, n_steps_log), (cosets, queries, oods, mem, auth, leaves))| Gen { layout, seed, steps, log_last, n_steps_log, cosets, queries, oods, mem, auth, leaves });
@@ -562,4 +565,4 @@ pub fn replay(ctx: &Ctx, v: &Value) -> Result<Outcome, String> {
     Ok(check(&e, &c))
 }
 
-pub const RULE: &str = "(a) the 25 shipped files: parse + TransformTo must succeed and equal, field for field, what the independent loader reads (loader cross-checked against proof_hex); (b) generated Stone-shaped files (any of the 7 layouts incl. dynamic with all 340 parameters, 1..4 FRI steps, vectors of 0..8 elements, PRF values) rendered by the harness's writer: same equality; (c) shipped (3%) or generated files with 1..2 grammar-level edits out of 22 classes (PoW bits incl. 255/256, query count, cosets, step list empty/long/huge, last-layer bound non-power/0/huge, n_steps 0/non-power/huge, rc bounds, unknown/removed segment, memory value bad hex (incl. sign and '_' separators) / not canonical / page != 0 / huge address, unknown layout, dynamic parameter removed / added to a static layout, annotation value changed / bad hex (incl. sign and '_' separators) / not canonical, line removed, two lines of one label swapped, nonce 0 / 2^64 / 2^64-1, a dynamic parameter renamed with the count unchanged). Oracle: loader says X => parser Ok must equal X (parser Err is tolerated for edited files: stricter is fine); loader says malformed/unrepresentable => parser must return Err; a panic is always a violation. Non-trivial = every judged file; classes = base x edit classes x outcome; distinct by case hash";
+pub const RULE: &str = "(a) the 25 shipped files: parse + TransformTo must succeed and equal, field for field, what the independent loader reads (loader cross-checked against proof_hex); (b) generated Stone-shaped files (any of the 7 layouts incl. dynamic with all 340 parameters, 1..4 FRI steps and, in 1 case of 6, 5..20 steps of 1 so that layer numbers have two digits, vectors of 0..8 elements, PRF values) rendered by the harness's writer: same equality; (c) shipped (3%) or generated files with 1..2 grammar-level edits out of 22 classes (PoW bits incl. 255/256, query count, cosets, step list empty/long/huge, last-layer bound non-power/0/huge, n_steps 0/non-power/huge, rc bounds, unknown/removed segment, memory value bad hex (incl. sign and '_' separators) / not canonical / page != 0 / huge address, unknown layout, dynamic parameter removed / added to a static layout, annotation value changed / bad hex (incl. sign and '_' separators) / not canonical, line removed, two lines of one label swapped, nonce 0 / 2^64 / 2^64-1, a dynamic parameter renamed with the count unchanged). Oracle: loader says X => parser Ok must equal X (parser Err is tolerated for edited files: stricter is fine); loader says malformed/unrepresentable => parser must return Err; a panic is always a violation. Non-trivial = every judged file; classes = base x edit classes x outcome; distinct by case hash";
